@@ -114,7 +114,7 @@ func (e *Enc) appendBuiltin(site ssa.Instruction, cc *ssa.CallCommon) Value {
 	grow := e.define(fmt.Sprintf("app%d.grow", id), gt(newLen, s.Cap))
 	nb := e.freshConst("appbase", SInt)
 	nc := e.freshConst("appcap", SInt)
-	e.assume(and(not(eq(nb, intLit(0))), e.freshRefFact(nb), ge(nc, newLen), le(nc, Term{"4611686018427387904", SInt})), "append allocates when growing")
+	e.assume(and(not(eq(nb, intLit(0))), e.freshRefFact(nb), ge(nc, newLen), le(nc, Term{"1152921504606846976", SInt})), "append allocates when growing")
 	// a nil/empty append with nothing to add keeps nil: result base 0 only if s.Base = 0 and tLen = 0
 	rBase := ite(grow, nb, s.Base)
 	rOff := ite(grow, intLit(0), s.Off)
